@@ -18,6 +18,16 @@ Tie (route C, no hooks).  Per generated image and parameter set:
           filters) against the first table.
   * `where_close` is also driven directly on lattice points with tied
     intensities, exact duplicates and pairs exactly at the separation.
+  * Static error on ALL its columns: a family of images whose features are darker
+    than the measured background (dim blobs next to a bright plateau, noise
+    textures) is run with parameter sets that take `_static_error`'s anisotropic
+    branch (diameter (9,11), (5,7), ...; noise_size (1,1.5) with a scalar
+    diameter).  Every column named ep / ep_* of every table is checked entry by
+    entry: not negative (here, and by the verified monitor), and equal to the
+    array model `Model/StaticError.locate_ep` (column names and order included,
+    `Model/StaticErrorCheck.check_se`).  The public `static_error` is called
+    directly (masses <0, 0, NaN, inf; scalar and per-frame noise; both branches)
+    and compared with `Model/StaticError.static_error` the same way.
 """
 import json, math
 import numpy as np
@@ -38,6 +48,13 @@ def cQ(x):
 IMPORTS = "From TP Require Import Model.LocateTail Model.LocateTailCheck."
 FUNC = "check_locate"
 WC_FUNC = "fun c => match c with (sep, pts, drop) => check_wc sep pts drop end"
+SE_IMPORTS = "From Coq Require Import String.\nFrom TP Require Import Model.LocateTail Model.StaticError Model.StaticErrorCheck."
+SE_FUNC = "check_se (Qmake 1%Z 1000000000%positive)"
+SE_CODES = {1: 'number of ep columns differs from the model of _static_error',
+            2: 'name / order of an ep column differs from the model',
+            3: 'an ep column does not have one entry per feature',
+            11: 'NaN/inf pattern of an ep entry differs from noise/mass*noise_size*coord_moment, negative -> NaN',
+            12: 'value of an ep entry differs from noise/mass*noise_size*coord_moment'}
 
 CODES = {
     11: 'returned feature has mass <= minmass', 12: 'returned feature has size >= maxsize',
@@ -76,6 +93,158 @@ def row_term(pos, mass, size, raw):
 def fkey(v):
     v = float(v)
     return 'nan' if math.isnan(v) else v.hex()
+
+
+
+# ------------------------------------------------- static error, all columns
+def ep_columns(df):
+    return [c for c in df.columns if c == 'ep' or str(c).startswith('ep_')]
+
+
+def sqrt_table(radius):
+    """(argument, float result) of the square roots _root_sum_x_squared takes"""
+    from trackpy.masks import x_squared_masks
+    nd = len(radius)
+    m = x_squared_masks(tuple(int(r) for r in radius), nd)
+    r2 = np.sum(m, axis=tuple(range(1, nd + 1)))
+    return clist(['(%s, %s)' % (cQ(int(v)), cQ(float(np.sqrt(v)))) for v in r2])
+
+
+def negative_entries(cols):
+    """[(column, row, value)] of entries that are negative (-inf included)"""
+    bad = []
+    for name, vals in cols:
+        for i, v in enumerate(np.asarray(vals, dtype=float)):
+            if v < 0:
+                bad.append((str(name), i, float(v)))
+    return bad
+
+
+def se_locate(h, base, info):
+    """Coq term comparing locate's ep columns with Model/StaticError.locate_ep, and
+    the direct sign findings"""
+    cols = ep_columns(base)
+    viol = []
+    raws = base['raw_mass'].values.astype(float)
+    nz, bl, npx = h['noise'], h['black'], h['npx']
+    keep = []
+    for i, raw in enumerate(raws):
+        if np.isfinite(bl):
+            m = raw - npx * bl
+            if m < 0:
+                info['darker_than_background'] = info.get('darker_than_background', 0) + 1
+            if abs(m) < 1e-6 * (abs(raw) + abs(npx * bl)):
+                continue
+        keep.append(i)
+    keep = keep[:60]
+    if len(cols) > 1:
+        info['aniso_ep'] = True
+        for c in cols:
+            v = base[c].values.astype(float)
+            info['aniso_ep_nan'] = info.get('aniso_ep_nan', 0) + int(np.isnan(v).sum())
+            info['aniso_ep_pos'] = info.get('aniso_ep_pos', 0) + int((v > 0).sum())
+    obs = clist(['("%s"%%string, %s)' % (c, clist([fval(base[c].values[i]) for i in keep])) for c in cols])
+    term = '(SELocate %s %s %s %s %s %s %s)' % (
+        sqrt_table(h['radius']), clist([common.cZ(int(r)) for r in h['radius']]),
+        clist([cQ(float(x)) for x in h['noise_size']]), fval(bl), fval(nz),
+        clist([cQ(float(raws[i])) for i in keep]), obs)
+    return term, viol
+
+
+def run_static_error(w):
+    """direct call of trackpy.static_error; returns (columns or None, info)"""
+    import pandas as pd
+    from trackpy.uncertainty import static_error
+    mass = np.array(w['mass'], dtype=float)
+    diameter = tuple(w['diameter']) if isinstance(w['diameter'], list) else w['diameter']
+    ns = tuple(w['noise_size']) if isinstance(w['noise_size'], list) else w['noise_size']
+    feats = pd.DataFrame({'mass': mass})
+    if w['frames'] is not None:
+        feats['frame'] = w['frames']
+        noise = pd.DataFrame({'noise': [float(x) for x in w['noise']]}, index=pd.Index(range(len(w['noise'])), name='frame'))
+    else:
+        noise = float(w['noise'])
+    info = {}
+    try:
+        ep = static_error(feats, noise, diameter, ns, ndim=w['ndim'])
+    except ValueError as e:
+        if 'Multi-dimensional indexing' not in str(e):
+            raise
+        info['pandas_multidim'] = True       # N_S[:, np.newaxis] on a Series: pandas >= 2 refuses
+        if w['frames'] is not None:
+            return None, info
+        ep = static_error(c08gen.ArrFeatures(mass), noise, diameter, ns, ndim=w['ndim'])
+    if isinstance(ep, pd.Series):
+        cols = [(ep.name, ep.values.astype(float))]
+    else:
+        cols = [(c, ep[c].values.astype(float)) for c in ep.columns]
+    return cols, info
+
+
+def se_static_term(w, cols):
+    nd = len(w['diameter']) if isinstance(w['diameter'], list) else w['ndim']
+    diam = [int(d) for d in (w['diameter'] if isinstance(w['diameter'], list) else [w['diameter']] * nd)]
+    ns = [float(x) for x in (w['noise_size'] if isinstance(w['noise_size'], list) else [w['noise_size']] * nd)]
+    if w['frames'] is None:
+        noise = '(NScalar %s)' % fval(w['noise'])
+    else:
+        noise = '(NSeries %s)' % clist([fval(w['noise'][f]) for f in w['frames']])
+    obs = clist(['("%s"%%string, %s)' % (n, clist([fval(v) for v in vals])) for n, vals in cols])
+    return '(SEStatic %s %s %s %s %s %s)' % (
+        sqrt_table([d // 2 for d in diam]), clist([fval(m) for m in w['mass']]), noise,
+        clist([common.cZ(d) for d in diam]), clist([cQ(x) for x in ns]), obs)
+
+
+
+# --------------------------------------------------- measure_noise (model glue)
+NOISE_IMPORTS = "From TP Require Import Model.Dilation Model.LocatePipe Model.LocatePipeCheck."
+NOISE_FUNC = "check_noise (Qmake 1%Z 1000000000%positive)"
+NOISE_CODES = {11: 'black level: NaN on one side only', 12: 'black level differs from the mean of the raw pixels without signal under the mask',
+               21: 'noise: NaN on one side only', 22: 'noise differs from the standard deviation of those pixels'}
+
+
+def arr_term(a):
+    if a.ndim == 0:
+        return '(Leaf %s)' % common.cZ(int(a))
+    return '(Node %s)' % clist([arr_term(x) for x in a])
+
+
+def image_term(a):
+    return '{| shape := %s; data := %s |}' % (clist([common.cZ(int(n)) for n in a.shape]), arr_term(a))
+
+
+def gen_noise_case(rng):
+    rs = np.random.RandomState(rng.randrange(2 ** 31))
+    if rng.random() < 0.75:
+        shape = (rng.randint(6, 13), rng.randint(6, 13))
+    else:
+        shape = (rng.randint(4, 6), rng.randint(5, 7), rng.randint(5, 7))
+    radius = tuple(rng.choice([1, 1, 2, 3]) for _ in shape)
+    dens = rng.choice([0.0, 0.01, 0.03, 0.08, 0.2, 0.5])
+    im = (rs.randint(1, 200, shape) * (rs.rand(*shape) < dens)).astype(np.uint8)
+    raw = rs.randint(0, 256, shape).astype(np.uint8) if rng.random() < 0.8 else im.copy()
+    return dict(image=im.tolist(), raw=raw.tolist(), radius=list(radius))
+
+
+def run_noise_case(w):
+    from trackpy.uncertainty import measure_noise
+    from trackpy.masks import binary_mask
+    from scipy.ndimage import binary_dilation
+    im = np.array(w['image'], dtype=np.uint8)
+    raw = np.array(w['raw'], dtype=np.uint8)
+    radius = tuple(w['radius'])
+    black, noise = measure_noise(im, raw, radius)
+    # exact variance of the pixels trackpy itself calls background: key of the sqrt table
+    bg = ~binary_dilation(im, structure=binary_mask(radius, im.ndim))
+    vs = [int(v) for v in raw[bg]]
+    table = []
+    if len(vs) >= 2:
+        mean = Fraction(sum(vs), len(vs))
+        var = sum((Fraction(v) - mean) ** 2 for v in vs) / len(vs)
+        table.append('(%s, %s)' % (cQ(var), cQ(float(np.sqrt(float(var))))))
+    term = '(mk_ncase %s %s %s %s %s %s)' % (clist(table), image_term(im), image_term(raw),
+                                           clist([common.cZ(r) for r in radius]), optq(black), optq(noise))
+    return term, len(vs)
 
 
 # --------------------------------------------------------------- one case
@@ -224,6 +393,13 @@ def run_case(case, chk=None):
     info = dict(n_pre=len(h['pre']), n_base=len(base), n_restr=len(restr), ndim=h['ndim'],
                 isotropic=h['isotropic'], topn=topn)
     pos = h['pos_columns']
+    # every ep column of both tables, entry by entry: never negative
+    for tname, tab in (('unrestricted', base), ('restricted', restr)):
+        bad = negative_entries([(c, tab[c].values) for c in ep_columns(tab)]) if len(tab) else []
+        if bad:
+            viol.append(('locate: negative static error in column %s' % bad[0][0],
+                         '%s table: column %s row %d = %r (%d negative entries in %s)' % (
+                             (tname,) + bad[0] + (len(bad), ep_columns(tab)))))
     if len(base) == 0:
         if len(restr) != 0:
             viol.append(('locate: restricted result has rows although the unrestricted result is empty',
@@ -325,7 +501,11 @@ def run_case(case, chk=None):
         cQ(h['npx']) if characterize else cQ(0), clist([cQ(c) for c in h['cs']]) if characterize else '[]',
         cQ(Fraction(1, 10 ** 9)), clist(eprows),
         cQ(mm1), copt(s1, lambda v: cQ(float(v))), copt(topn, cnat), clist([cbool(b) for b in mask]), pre_term)
-    return dict(term=term, info=info, viol=viol)
+    se_term = None
+    if characterize and len(base):
+        se_term, v2 = se_locate(h, base, info)
+        viol = viol + v2
+    return dict(term=term, info=info, viol=viol, se_term=se_term)
 
 
 def case_json(case):
@@ -374,6 +554,21 @@ def corpus():
     cs.append(dict(origin='everything filtered', image=tw8, kw=dict(diameter=9), m0=None, s0=None, m1=1e9, s1=None, topn=None))
     cs.append(dict(origin='maxsize exactly a size', image=tex, kw=dict(diameter=5, preprocess=False), m0=None, s0=None, m1=None, s1='median', topn=4))
     cs.append(dict(origin='float noise image', image=rs.rand(40, 40), kw=dict(diameter=5), m0=None, s0=None, m1='median', s1=None, topn=None))
+    # anisotropic static error with features darker than the measured background: dim blobs
+    # next to a bright plateau (bandpass leaves ~0 inside the plateau, so measure_noise takes
+    # its raw pixels as background), and the F2 texture
+    g3 = np.meshgrid(np.arange(56), np.arange(60), indexing='ij')
+    pl = np.zeros((56, 60))
+    pl[:22, :] = 220.
+    for c, a in [((34, 12), 40.), ((40, 30), 25.), ((33, 47), 60.), ((47, 44), 30.)]:
+        pl += a * np.exp(-((g3[0] - c[0]) ** 2 + (g3[1] - c[1]) ** 2) / 8.)
+    pl8 = np.clip(pl, 0, 255).astype(np.uint8)
+    for kw in (dict(diameter=(9, 11)), dict(diameter=(5, 7)), dict(diameter=9, noise_size=(1, 1.5)),
+               dict(diameter=(9, 11), preprocess=False, percentile=0)):
+        cs.append(dict(origin='aniso ep: dim blobs next to a bright plateau, %s' % kw, image=pl8, kw=dict(kw), m0=None, s0=None,
+                       m1=None, s1=None, topn=None))
+        cs.append(dict(origin='aniso ep: F2 noise texture, %s' % kw, image=tex, kw=dict(kw), m0=None, s0=None,
+                       m1='median', s1=None, topn=None))
     return cs
 
 
@@ -446,6 +641,14 @@ def report(chk, case, res, code=None):
                       dict(kind='locate', code=code, via=kind, case=cj, info=res['info']))
 
 
+def report_se(chk, case, res, code):
+    if code:
+        what = SE_CODES.get(code, 'code %d' % code)
+        chk.violation('locate ep columns:%s' % what,
+                      'locate(%s): %s [%s]' % (kw_to_json(case['kw']), what, case.get('origin', 'generated')),
+                      dict(kind='locate', se_code=code, via='correspondence', case=case_json(case), info=res['info']))
+
+
 def tally_info(chk, case, info):
     chk.tally('ndim=%d' % info['ndim'])
     chk.tally('isotropic' if info['isotropic'] else 'anisotropic diameter')
@@ -469,6 +672,14 @@ def tally_info(chk, case, info):
             chk.tally({'ep_degenerate': 'ep rows skipped: raw_mass - N*black within rounding of 0',
                        'ep_zero_noise_zero': 'ep = 0 with measured noise exactly 0 (accepted: exact value of the formula)',
                        'ep_nan': 'ep NaN', 'ep_pos': 'ep > 0'}[k], info[k])
+    if info.get('aniso_ep'):
+        chk.tally('tables with ep_<axis> columns (anisotropic branch of _static_error)')
+        chk.tally('ep_<axis> entries NaN', info.get('aniso_ep_nan', 0))
+        chk.tally('ep_<axis> entries > 0', info.get('aniso_ep_pos', 0))
+    if info.get('darker_than_background'):
+        chk.tally('features darker than the measured background (raw_mass < N*black_level)', info['darker_than_background'])
+        if info.get('aniso_ep'):
+            chk.tally('anisotropic tables containing features darker than the background')
     t = info['topn']
     chk.tally('topn: none' if t is None else ('topn binding' if t < info['n_base'] else 'topn not binding'))
 
@@ -483,6 +694,10 @@ def run(chk):
     for k in range(n):
         im, kind = c08gen.gen_image(rng, chk.tier)
         kw = c08gen.gen_params(rng, im)
+        todo.append(dict(image=im, kw=kw, origin='generated:' + kind, m0='pick', s0=None, m1=None, s1=None, topn=None))
+    na = 40 if chk.tier == 'quick' else 400
+    for k in range(na):
+        im, kind, kw = c08gen.gen_aniso(rng)
         todo.append(dict(image=im, kw=kw, origin='generated:' + kind, m0='pick', s0=None, m1=None, s1=None, topn=None))
     import random
     for case in todo:
@@ -523,6 +738,63 @@ def run(chk):
     for case, res, code in zip(cases, results, codes):
         chk.count(('locate', case_json(case)), res['info']['n_base'] >= 3)
         report(chk, case, res, code)
+    # all ep columns against the array model of _static_error / locate's ep block
+    se = [(case, res) for case, res in zip(cases, results) if res.get('se_term')]
+    se_codes = common.coq_eval_lists(chk.work, SE_IMPORTS, SE_FUNC, [r['se_term'] for _, r in se], shard=40, tag='se')
+    for (case, res), code in zip(se, se_codes):
+        chk.tally('ep columns compared with Model/StaticError.locate_ep')
+        report_se(chk, case, res, code)
+    # static_error called directly
+    ns = 120 if chk.tier == 'quick' else 2500
+    sws, sterms = [], []
+    for k in range(ns):
+        w = c08gen.gen_static_error(rng)
+        try:
+            cols, sinfo = run_static_error(w)
+        except Exception as e:
+            chk.violation('static_error: exception', 'static_error raised %r on %s' % (e, w), dict(kind='static_error', case=w))
+            continue
+        if sinfo.get('pandas_multidim'):
+            chk.tally('static_error: 2-D branch raises on a pandas Series (N_S[:, np.newaxis]); re-run with ndarray mass' if cols is not None
+                      else 'static_error: 2-D branch raises on a pandas Series (per-frame noise: not re-runnable)')
+        if cols is None:
+            continue
+        chk.tally('static_error: %s' % ('column ep' if len(cols) == 1 and cols[0][0] == 'ep' else 'columns ' + '/'.join(str(c) for c, _ in cols)))
+        bad = negative_entries(cols)
+        if bad:
+            chk.violation('static_error: negative entry in column %s' % bad[0][0],
+                          'static_error(mass=%s, noise=%s, diameter=%s, noise_size=%s): column %s row %d = %r' % (
+                              (w['mass'], w['noise'], w['diameter'], w['noise_size']) + bad[0]), dict(kind='static_error', case=w))
+        sws.append(w); sterms.append(se_static_term(w, cols))
+    sres = common.coq_eval_lists(chk.work, SE_IMPORTS, SE_FUNC, sterms, shard=150, tag='sef')
+    for w, r in zip(sws, sres):
+        chk.count(('static_error', json.dumps(w, default=str)), len(w['mass']) >= 3)
+        if r != 0:
+            chk.violation('static_error:%s' % SE_CODES.get(r, 'code %d' % r),
+                          'static_error(mass=%s, noise=%s, diameter=%s, noise_size=%s, frames=%s): %s' % (
+                              w['mass'], w['noise'], w['diameter'], w['noise_size'], w['frames'], SE_CODES.get(r, r)),
+                          dict(kind='static_error', case=w, code=r))
+    if sws:
+        chk.sample(dict(static_error=sws[0]))
+    # measure_noise against the model used by the composed model of locate
+    nn = 80 if chk.tier == 'quick' else 1200
+    nws, nterms = [], []
+    for k in range(nn):
+        w = gen_noise_case(rng)
+        try:
+            t, nbg = run_noise_case(w)
+        except Exception as e:
+            chk.violation('measure_noise: exception', 'measure_noise raised %r' % e, dict(kind='measure_noise', case=w))
+            continue
+        chk.tally('measure_noise: %s background pixels' % ('no' if nbg == 0 else 'one' if nbg == 1 else 'several'))
+        nws.append((w, nbg)); nterms.append(t)
+    nres = common.coq_eval_lists(chk.work, NOISE_IMPORTS, NOISE_FUNC, nterms, shard=100, tag='noise')
+    for (w, nbg), r in zip(nws, nres):
+        chk.count(('measure_noise', json.dumps(w)), nbg >= 2)
+        if r != 0:
+            chk.violation('measure_noise:%s' % NOISE_CODES.get(r, 'code %d' % r),
+                          'measure_noise(image, raw, %s) on a %s image: %s' % (w['radius'], 'x'.join(str(n) for n in np.array(w['image']).shape), NOISE_CODES.get(r, r)),
+                          dict(kind='measure_noise', case=w, code=r))
     for case in cases[:2]:
         cj = case_json(case); cj['image'] = dict(dtype=cj['image']['dtype'], shape=cj['image']['shape'], data='(omitted)')
         chk.sample(cj)
@@ -555,6 +827,11 @@ def run(chk):
         "threshold, smoothing_size, max_iterations, characterize on/off, engine; unrestricted run with (mostly default) minmass/maxsize, second run with minmass raised "
         "(incl. exactly a returned mass), maxsize lowered (incl. exactly a returned size), topn 1..n+2; corpus of DESIGN section 4 witnesses F2/F3, equal masses at the topn cut, "
         "flat peaks, empty results. where_close: lattice points (integer / quarter pixel), duplicates, 3-4-5 boundary pairs, tied intensities, DataFrame and ndarray input. "
+        "static error on all columns: 2-D uint8 images with a bright flat plateau and dim blobs beside it (clean / noisy), dense and sparse noise textures, with "
+        "diameter (9,11),(11,9),(5,7),(7,5) or scalar diameter with noise_size (1,1.5),(1.5,1), preprocess on/off, percentile 0/20/64: every ep / ep_<axis> column of both tables checked entry by entry "
+        "(sign; names, order and values against Model/StaticError.locate_ep); static_error called directly with masses <0, 0, NaN, inf, -1e-3, scalar / per-frame noise (0, NaN, negative included), "
+        "isotropic / anisotropic diameter and noise_size, 2-D and 3-D. "
+        "measure_noise directly: 2-D / 3-D uint8 images 4-13 px, signal density 0-50 %, radii 1-3 per axis, raw image different from the processed one, against Model/LocatePipe.measure_noise (none / one / several background pixels). "
         "topn >= 1 only (topn=0 returns the whole table: Python slice [-0:], outside the property). non-trivial = unrestricted result with >= 3 features / >= 3 points")
     chk.assumptions += [
         "everything before the tail (bandpass, grey_dilation, refine_com) is taken from trackpy itself by repeating locate's head; 'inside the image' is monitored on outputs, its proof belongs to C07",
@@ -562,7 +839,10 @@ def run(chk):
         "ep: exact rational formula compared with the float result to 1e-9 relative; rows with |raw_mass - N*black| below 1e-6 of its terms are excluded from the value comparison (sign still monitored)",
         "ep = 0 is accepted when the measured background noise is exactly 0 (exact value of noise/mass*geometry); with positive noise ep must be > 0, +inf or NaN",
         "np.argsort default sort is not stable: rows of equal mass at the topn cut are treated as interchangeable",
-        "engine='numba' runs interpreted (numba absent)"]
+        "engine='numba' runs interpreted (numba absent)",
+        "np.sqrt in _root_sum_x_squared enters the array model as the table (sum of x^2 over trackpy's own mask -> its float root); the model computes the sums from its own mask model, a different sum finds no table entry and is reported",
+        "static_error's 2-D branch indexes N_S[:, np.newaxis]: on a pandas >= 2 Series this raises ValueError (counted, not a C08 violation); that branch is then run with an ndarray mass through a minimal features object, per-frame noise tables cannot be run that way and are counted",
+        "'inside the image' for the whole preprocess=False integer pipeline is proved (Properties/C08.v C08_inside_image) for non-negative pixels; on the implementation it is monitored on every output table"]
 
 
 def replay(chk, path):
@@ -580,6 +860,33 @@ def replay(chk, path):
             kw_to_json(case['kw']), case['m0'], case['m1'], case['s0'], case['s1'], case['topn'], res['info'], code,
             CODES.get(code, 'ok' if code == 0 else '?'), [v[0] for v in res['viol']]))
         report(chk, case, res, code)
+        if res.get('se_term'):
+            sc = common.coq_eval_lists(chk.work, SE_IMPORTS, SE_FUNC, [res['se_term']], tag='se')[0]
+            print('replay: ep columns against Model/StaticError.locate_ep: code %d %s' % (sc, SE_CODES.get(sc, 'ok' if sc == 0 else '?')))
+            report_se(chk, case, res, sc)
+    elif r.get('kind') == 'static_error':
+        w = r['case']
+        cols, sinfo = run_static_error(w)
+        chk.count(('static_error', json.dumps(w, default=str)), True)
+        if cols is None:
+            print('replay: static_error raised the pandas multi-dimensional indexing error (per-frame noise): nothing to compare')
+        else:
+            bad = negative_entries(cols)
+            sc = common.coq_eval_lists(chk.work, SE_IMPORTS, SE_FUNC, [se_static_term(w, cols)], tag='sef')[0]
+            print('replay: static_error columns %s; negative entries %s; model comparison code %d %s' % (
+                [(str(c), [float(x) for x in v]) for c, v in cols], bad, sc, SE_CODES.get(sc, 'ok' if sc == 0 else '?')))
+            if bad:
+                chk.violation('static_error: negative entry in column %s' % bad[0][0], 'column %s row %d = %r' % bad[0], dict(kind='static_error', case=w))
+            if sc:
+                chk.violation('static_error:%s' % SE_CODES.get(sc, 'code %d' % sc), 'static_error differs from the model', dict(kind='static_error', case=w, code=sc))
+    elif r.get('kind') == 'measure_noise':
+        w = r['case']
+        t, nbg = run_noise_case(w)
+        code = common.coq_eval_lists(chk.work, NOISE_IMPORTS, NOISE_FUNC, [t], tag='noise')[0]
+        chk.count(('measure_noise', json.dumps(w)), True)
+        print('replay: measure_noise, %d background pixels: code %d %s' % (nbg, code, NOISE_CODES.get(code, 'ok' if code == 0 else '?')))
+        if code:
+            chk.violation('measure_noise:%s' % NOISE_CODES.get(code, 'code %d' % code), 'measure_noise differs from the model', dict(kind='measure_noise', case=w, code=code))
     elif r.get('kind') == 'where_close':
         w = r['case']
         d = run_wc(w)
